@@ -669,11 +669,7 @@ inline void registerModelNeigh(std::vector<Entry>& reg)
         c.integer("rotmat.size", (long)ma.size(), (long)mb.size());
         for (size_t i = 0; i < std::min(ma.size(), mb.size()); i++) c.numScaled("rotmat", ma[i], mb[i], 1., 4., fmt("[%zu]", i));
       }
-      // An isotropic NeighMoving carries a 2-D distance checker whatever the space (BiTargetCheckDistance.cpp:57,
-      // _ndim = 2 when no coefficient is given): in a 1-D space its selection reads past the coordinates of the
-      // ORIGINAL object already (a moving-neighbourhood defect, C06's subject, not a save/reload one) -> not probed.
-      bool oobOriginal = (a.getNDim() == 1 && (!a.getFlagAniso() || !b.getFlagAniso()));
-      if (a.getNDim() == b.getNDim() && a.getNDim() >= 1 && a.getNDim() <= 3 && !oobOriginal)
+      if (a.getNDim() == b.getNDim() && a.getNDim() >= 1 && a.getNDim() <= 3)
         cmpNeighSelection(const_cast<NeighMoving&>(a), const_cast<NeighMoving&>(b), a.getNDim(), false, c);
     },
     [](const NeighMoving& a, Cmp& c) { (void)a.toString(); (void)c; }, [](const NeighMoving& a) { return (int)a.getNDim(); }));
@@ -828,15 +824,11 @@ inline Vario* makeVario(Rng& r, bool thorough, std::string& sig)
     vp.addDir(dp);
   }
   static const std::vector<const char*> calcs = {"VARIOGRAM", "VARIOGRAM", "VARIOGRAM", "COVARIANCE", "COVARIOGRAM", "MADOGRAM",
-                                                 "RODOGRAM", "POISSON", "COVARIANCE_NC",
+                                                 "RODOGRAM", "POISSON", "GENERAL1", "GENERAL2", "GENERAL3", "COVARIANCE_NC",
                                                  "ORDER4", "TRANS1", "TRANS2", "BINORMAL"};
   std::string calc = r.pick(calcs);
-  // GENERAL1/2/3 are not drawn: AVario::setCalcul has no case for them and calls messageAbort() -> exit(1) of the
-  // whole process while COMPUTING the original (a variogram-calculation defect, not a save/reload one)
-  if (onGrid) calc = r.coin(0.7) ? "VARIOGRAM" : "COVARIANCE";
-  // the covariogram in several directions writes out of bounds while being COMPUTED (Vario::_calculateGeneralSolution2
-  // never sets the file-static IDIRLOC used by _setResult -> updateGgByIndex): again not a save/reload matter
-  if (calc == "COVARIOGRAM" && ndir > 1) calc = "COVARIANCE";
+  // on a grid the pairs are formed along the grid increments: the generalized variograms and the two basic modes
+  if (onGrid && calc.compare(0, 7, "GENERAL") != 0) calc = r.coin(0.7) ? "VARIOGRAM" : "COVARIANCE";
   if (getenv("C08_STATS")) fprintf(stderr, "makeVario ndim=%d nvar=%d ndir=%d grid=%d code=%d opt=%d calc=%s nech=%d\n", ndim, nvar, ndir, (int)onGrid, (int)code, optFlags, calc.c_str(), n);
   Vario* v = Vario::computeFromDb(vp, d, ECalcVario::fromKey(calc));
   if (v == nullptr)
